@@ -399,6 +399,8 @@ class Sys:
                                 required_roles=set(), data_log_interval_seconds=INTERVAL)
             r = self._send(msg)
             m.uod_since_reg = True
+            # like the real engine, follow up with the snapshot of the system tags (here: System State only)
+            self._send(EM.TagsUpdatedMsg(tags=[self._system_state_tag(m.clock)], run_id=m.eng_run))
             return r
         if ev in ("rs1", "rs2"):
             rid = "r" + ev[-1]
@@ -439,6 +441,7 @@ class Sys:
             sent.append((tag, t))
         for tag, t in sent:
             tvs.append(PM.TagValue(name=tag, tick_time=t, value=value_of(tag, t), value_unit="u"))
+        tvs.append(self._system_state_tag(sent[0][1]))        # every report carries the engine's System State
         run_id = None if no_run else m.eng_run
         rec["sent"] = {"run": run_id, "tags": sent}
         r = self._send(EM.TagsUpdatedMsg(tags=tvs, run_id=run_id))
@@ -447,6 +450,10 @@ class Sys:
             m.last_report[tag] = t
             m.clock = max(m.clock, t)
         return r
+
+    def _system_state_tag(self, t: float):
+        return PM.TagValue(name="System State", tick_time=t, value="Running" if self.model.eng_run is not None else "Stopped",
+                           value_unit=None)
 
     # -- observation -----------------------------------------------------------------
     def agg_view(self) -> dict:
